@@ -5,6 +5,7 @@ package main
 import (
 	"fmt"
 	"go/ast"
+	"go/constant"
 	"go/types"
 	"sort"
 	"strings"
@@ -103,6 +104,27 @@ func verifyFunc(prog *Program, fi *FuncInfo, con *FuncContract) (rep *FuncReport
 	if fi.Decl.Body == nil {
 		rep.Status = "nobody"
 		return
+	}
+	// symbolic table sizes: the named constants listed by `symconst` are arbitrary integers >= 1, so that the proof
+	// does not depend on the sizes of the carrier's tables
+	x.symConst, x.symByVal = map[types.Object]string{}, map[int64]string{}
+	amb := map[int64]bool{}
+	for _, name := range prog.Contracts.SymConsts[fi.Pkg.Types.Name()] {
+		if c, ok := fi.Pkg.Types.Scope().Lookup(name).(*types.Const); ok {
+			if v, exact := constant.Int64Val(c.Val()); exact {
+				k := "K!" + sanitize(name)
+				x.ctx.declOnce(k, fmt.Sprintf("(declare-const %s Int)\n(assert (>= %s 1))", k, k))
+				x.symConst[c] = k
+				if _, dup := x.symByVal[v]; dup {
+					amb[v] = true
+				}
+				x.symByVal[v] = k
+			}
+		}
+	}
+	for v := range amb {
+		delete(x.symByVal, v) // two symbolic constants share this value on this carrier: array lengths stay concrete
+		x.ctx.note(fmt.Sprintf("two symbolic constants have the value %d on this carrier: arrays of that length keep a concrete length", v))
 	}
 	x.loopOrd = numberLoops(fi.Decl.Body)
 	x.stmtOrd = numberStmts(fi.Decl.Body)
